@@ -18,6 +18,8 @@ type tc struct {
 	Env     []string
 	Timeout time.Duration
 	Stdin   []byte
+	// KeepGroup: see h.Proc
+	KeepGroup bool
 }
 
 func (t tc) run(c *h.Ctx, args ...string) h.ProcResult {
@@ -31,7 +33,7 @@ func (t tc) run(c *h.Ctx, args ...string) h.ProcResult {
 		to = 30 * time.Second
 	}
 	c.Count("taskctl_processes", 1)
-	return h.Proc{Argv: append([]string{c.Bin}, args...), Dir: t.Dir, Env: h.BaseEnv(home, t.Env...), Timeout: to, Stdin: t.Stdin}.Run()
+	return h.Proc{Argv: append([]string{c.Bin}, args...), Dir: t.Dir, Env: h.BaseEnv(home, t.Env...), Timeout: to, Stdin: t.Stdin, KeepGroup: t.KeepGroup}.Run()
 }
 
 var ansiRe = regexp.MustCompile("\x1b\\[[0-9;]*[A-Za-z]")
